@@ -3,17 +3,18 @@
 # like try_seeded.sh, but leaves /repo alone: the patch is applied to a git worktree of /repo's HEAD
 # (/var/tmp/mutrepo) that is put first on PYTHONPATH - used while long runs are using /repo itself.
 D="$1"; PID="$2"; shift 2
-W=/var/tmp/mutrepo
+W=${MUTW:-/var/tmp/mutrepo}
+T=$(basename $W)
 [ -d $W ] || git -C /repo worktree add --detach $W HEAD -q
 git -C $W checkout -q --detach "$(git -C /repo rev-parse HEAD)" 2>/dev/null
 git -C $W checkout -- . 
-PYTHONPATH=$W/src /venv/bin/python "$D/demo.py" > /tmp/demo_clean_wt.out 2>&1; C=$?
+PYTHONPATH=$W/src /venv/bin/python "$D/demo.py" > /tmp/demo_clean_$T.out 2>&1; C=$?
 git -C $W apply "$D/patch.diff" || { echo "patch does not apply"; exit 2; }
-PYTHONPATH=$W/src /venv/bin/python "$D/demo.py" > /tmp/demo_mut_wt.out 2>&1; M=$?
-cd /verif && VERIF_SCRATCH_EVIDENCE=1 PYTHONPATH=$W/src ./check "$PID" "$@" > /tmp/check_mut_wt.out 2>&1; RC=$?
+PYTHONPATH=$W/src /venv/bin/python "$D/demo.py" > /tmp/demo_mut_$T.out 2>&1; M=$?
+cd /verif && VERIF_SCRATCH_EVIDENCE=1 PYTHONPATH=$W/src ./check "$PID" "$@" > /tmp/check_mut_$T.out 2>&1; RC=$?
 git -C $W checkout -- .
-NV=$(grep -c '^VIOLATION' /tmp/check_mut_wt.out)
-echo "$(basename $D): demo clean=$C mutated=$M | check $PID $* -> exit $RC, $NV VIOLATION lines | $(grep 'tier=' /tmp/check_mut_wt.out | cut -c1-160)"
-grep -A1 '^VIOLATION' /tmp/check_mut_wt.out | grep what | head -1 | cut -c1-260
-grep 'MACHINERY' /tmp/check_mut_wt.out | head -2 | cut -c1-300
+NV=$(grep -c '^VIOLATION' /tmp/check_mut_$T.out)
+echo "$(basename $D): demo clean=$C mutated=$M | check $PID $* -> exit $RC, $NV VIOLATION lines | $(grep 'tier=' /tmp/check_mut_$T.out | cut -c1-160)"
+grep -A1 '^VIOLATION' /tmp/check_mut_$T.out | grep what | head -1 | cut -c1-260
+grep 'MACHINERY' /tmp/check_mut_$T.out | head -2 | cut -c1-300
 exit 0
